@@ -321,3 +321,38 @@ Qed.
    documented refusal of malformed calls does not cover them - recorded as a finding *)
 Lemma kwargs_ignored G fuel fs f args n m : visit G fuel fs (ECall f args n) = visit G fuel fs (ECall f args m).
 Proof. destruct fuel; reflexivity. Qed.
+
+(* ---------- the argument-count pre-pass (fix 109dd7d) refuses a malformed sequence call at ANY position ---------- *)
+Lemma all_arity_fix (l : list expr) :
+  (fix all (l : list expr) : bool := match l with [] => true | x :: r => seq_arity_ok x && all r end) l = all_arity_ok l.
+Proof. induction l as [|x r IH]; cbn [all_arity_ok]; [reflexivity|]. rewrite IH. reflexivity. Qed.
+Lemma all_arity_mid (pre post : list expr) (x : expr) : seq_arity_ok x = false -> all_arity_ok (pre ++ x :: post) = false.
+Proof.
+  intro H. induction pre as [|p r IH]; cbn [app all_arity_ok]; [rewrite H; reflexivity|].
+  rewrite IH. apply andb_false_r.
+Qed.
+Definition bad_seq_call (u : expr) : Prop :=
+  exists g args nkw, u = ECall (EName g) args nkw /\ mem_str g ["Select"; "SelectMany"; "Where"] = true /\
+                     (List.length args <> 2 \/ nkw <> 0).
+Lemma bad_seq_call_refused (u : expr) : bad_seq_call u -> seq_arity_ok u = false.
+Proof.
+  intros (g & args & nkw & -> & Hg & Hbad). cbn [seq_arity_ok is_seq_op].
+  assert (Eg : (String.eqb g "Select" || String.eqb g "SelectMany" || String.eqb g "Where") = true).
+  { cbn [mem_str] in Hg. destruct (String.eqb g "Select"); [reflexivity|]. destruct (String.eqb g "SelectMany"); [reflexivity|].
+    destruct (String.eqb g "Where"); [reflexivity|discriminate]. }
+  rewrite Eg.
+  assert (Eb : (Nat.eqb (List.length args) 2 && Nat.eqb nkw 0) = false).
+  { destruct Hbad as [H|H]; [apply Nat.eqb_neq in H; rewrite H; reflexivity|apply Nat.eqb_neq in H; rewrite H; apply andb_false_r]. }
+  rewrite Eb. reflexivity.
+Qed.
+Theorem prepass_refuses_in_context (u : expr) : seq_arity_ok u = false -> forall c, seq_arity_ok (plug c u) = false.
+Proof.
+  intros Hu c. induction c; cbn [plug seq_arity_ok]; rewrite ?all_arity_fix; try exact Hu;
+    repeat match goal with
+           | |- context [all_arity_ok (?pre ++ plug ?c u :: ?post)] => rewrite (all_arity_mid pre post (plug c u) IHc)
+           | |- context [seq_arity_ok (plug ?c u)] => rewrite IHc
+           end;
+    cbn [all_arity_ok seq_arity_ok]; rewrite ?all_arity_fix, ?IHc, ?andb_false_r, ?andb_false_l; try reflexivity.
+Qed.
+Corollary prepass_refuses_bad_call_anywhere (u : expr) (c : ctx) : bad_seq_call u -> prepass (plug c u) = Error ErrValue.
+Proof. intro H. unfold prepass. rewrite (prepass_refuses_in_context u (bad_seq_call_refused u H) c). reflexivity. Qed.
